@@ -1021,7 +1021,30 @@ class FunctionAnalysis:
             return FRESH
         # resolved global callee
         tgt = self.p.resolve(self.m, f, self._locals(env))
+        if tgt is not None and isinstance(f, ast.Attribute):
+            # a method of a module-level data object (`_CACHE.update(...)`, `_TABLE.items()`): a method call on that value
+            base_t = self.p.resolve(self.m, f.value, self._locals(env))
+            if base_t is not None:
+                bm, _, bname = self.p.canonical(base_t).rpartition(".")
+                mod = self.p.modules.get(bm)
+                if mod is not None and bname in mod.globals and self.p.canonical(base_t) not in self.p.functions \
+                        and self.p.canonical(base_t) not in self.p.classes:
+                    recv = self._global_value(self.p.canonical(base_t))
+                    if not recv.is_:
+                        # immutable literal (tuple of constants, string, number): reading it has no effect
+                        recv = AV(kind="tuple" if isinstance(mod.globals[bname], ast.Tuple) else recv.kind)
+                    return self.method_call(recv, f.attr, pos, kwargs, n, env, star)
         if tgt is not None:
+            ct = self.p.canonical(tgt)
+            cm, _, cname = ct.rpartition(".")
+            mod = self.p.modules.get(cm)
+            if mod is not None and cname in mod.globals and ct not in self.p.functions and ct not in self.p.classes:
+                gv = mod.globals[cname]
+                if isinstance(gv, ast.Call) and self.p.resolve(mod, gv.func, ()) in ("collections.namedtuple", "typing.NamedTuple"):
+                    # a namedtuple class: constructing one builds a fresh tuple holding the arguments
+                    es = list(pos) + [v for k, v in kwargs.items() if k != "**"]
+                    e = joins(es) if es else None
+                    return container("tuple", AV(e.is_, e.elem, e.kind, e.cls, e.funcs) if e is not None else None)
             return self.call_target(tgt, pos, kwargs, n, env, star)
         # method call on a value
         if isinstance(f, ast.Attribute):
